@@ -149,7 +149,19 @@ def shutdown_script(cfg, n_workers):
     loop_polls = any(op[0] in ("is_alive", "exitcode") for op in rec.ops[:last_get])
     if not apex_breaks:
         ops = []
+    # a done_event.set() INSIDE the dispatch loop: which release it follows
+    EARLY_SET[cfg.name] = []
+    loop_ops = rec.ops[:last_get]
+    for i, op in enumerate(loop_ops):
+        if op[0] == "set":
+            prev = [o for o in loop_ops[:i] if o[0] == "put" and o[1] == 0]
+            if not prev or prev[-1][2] not in order:
+                raise HarnessError("the dispatcher sets the done flag inside its loop at a point the model cannot place: %r" % (loop_ops[max(0, i - 3):i + 1],))
+            EARLY_SET[cfg.name].append(order.index(prev[-1][2]))
     return ops, (maxsize[0] if maxsize else 0), len(starts), seeds, loop_polls, apex_breaks
+
+
+EARLY_SET = {}
 
 
 def walk_worker_table():
@@ -269,7 +281,8 @@ def check_config(run, cfg, n_workers, R, table, max_live_seeds, tier, which=None
     shutdown, done_max, nstart, seeds, loop_polls, apex_breaks = shutdown_script(cfg, n_workers)
     if nstart != n_workers:
         raise HarnessError("walk started %d workers for parallel=%d" % (nstart, n_workers))
-    ts = mpmodel.walk_ts(cfg.tree, n_workers, R, table["post_item"], done_max, shutdown, max_live_seeds=max_live_seeds, apex_breaks=apex_breaks, flag_read=table.get("flag_read", "after_empty"))
+    ts = mpmodel.walk_ts(cfg.tree, n_workers, R, table["post_item"], done_max, shutdown, max_live_seeds=max_live_seeds, apex_breaks=apex_breaks, flag_read=table.get("flag_read", "after_empty"),
+                         early_set=EARLY_SET.get(cfg.name, []))
     K = ts.max_steps
     t0 = time.time()
     U = bmc.Unrolled(ts, K, timeout_ms=1500000 if tier == "thorough" else 400000)
